@@ -54,13 +54,28 @@ LookupFrom(sts, i, g1, g2) ==
   ELSE LET a == ApplySub(sts[i], g1, g2) IN IF a.applies THEN a.adj ELSE LookupFrom(sts, i + 1, g1, g2)
 Lookup(sts, g1, g2) == LookupFrom(sts, 1, g1, g2)
 
-\* what the input rules mean: glyph pairs first (first one listed wins), then class pairs
-\* (class sets of one lookup are pairwise equal or disjoint on each side, and no class pair is listed twice)
+\* what the input rules mean: glyph pairs first (first one listed wins), then class pairs in the order listed
+\* (no class pair is listed twice)
 Expected(pairs, classes, g1, g2) ==
   LET ps == {k \in DOMAIN pairs : pairs[k][1] = g1 /\ pairs[k][2] = g2} IN
   IF ps # {} THEN LET r == pairs[CHOOSE k \in ps : \A j \in ps : k <= j] IN <<r[3], r[4]>>
   ELSE LET cs == {k \in DOMAIN classes : g1 \in classes[k].c1 /\ g2 \in classes[k].c2} IN
-       IF cs = {} THEN NoAdj ELSE LET r == classes[CHOOSE k \in cs : TRUE] IN <<r.v1, r.v2>>
+       IF cs = {} THEN NoAdj ELSE LET r == classes[CHOOSE k \in cs : \A j \in cs : k <= j] IN <<r.v1, r.v2>>
+\* Class sets that are pairwise equal or disjoint on each side fit one class subtable and every pair is decided by
+\* the rules. When classes overlap, a class subtable applies as soon as its coverage holds the first glyph, so a rule
+\* whose first class holds g1 shadows every later rule for g1: the pair is decided by the rules when the FIRST rule
+\* whose first class holds g1 also holds g2 (that rule's records), or when no rule holds the pair (nothing). Otherwise
+\* the answer depends on where the compiler breaks subtables and is not judged.
+Aligned(classes) ==
+  \A i, j \in DOMAIN classes :
+     /\ (classes[i].c1 = classes[j].c1 \/ classes[i].c1 \cap classes[j].c1 = {})
+     /\ (classes[i].c2 = classes[j].c2 \/ classes[i].c2 \cap classes[j].c2 = {})
+Decided(pairs, classes, g1, g2) ==
+  \/ \E k \in DOMAIN pairs : pairs[k][1] = g1 /\ pairs[k][2] = g2
+  \/ Aligned(classes)
+  \/ LET f1 == {k \in DOMAIN classes : g1 \in classes[k].c1} IN
+     \/ {k \in f1 : g2 \in classes[k].c2} = {}
+     \/ g2 \in classes[CHOOSE k \in f1 : \A j \in f1 : k <= j].c2
 
 (***************************************************************************)
 (* Mark-to-base attachment.                                                *)
